@@ -15,11 +15,24 @@
 /* absolute day number of an ISO week date by its week-1 Monday (lemma L_ywd: equals A_YWD) */
 #define N_YWD(x) (S_ISOMON1((int)(x).y) + 7 * ((int)(x).c - 1) + ((int)(x).w - 1))
 
-#define PRE_dt_dfixup(d) (V_d(d))
+/* C04: crop to the last existing day / count / week ("lazy ultimo").  Lazily valid values: month/year arithmetic may leave a
+ * day-of-month up to 31, a 5th weekday, week 53 or day 366 that does not exist in the target month/year. */
+#define L_YMCW(x) (V_YEAR((int)(x).y) && (x).m >= 1 && (x).m <= 12 && (x).c >= 1 && (x).c <= 5 && (x).w >= 1 && (x).w <= 7 && ((x).u >> 22) == 0)
+#define L_YWD(x) (V_YEAR((int)(x).y) && (x).c >= 1 && (x).c <= 53 && (x).w >= 1 && (x).w <= 7 && (int)(x).hang == S_HANG((int)(x).y) && ((x).u >> 25) == 0)
+#define L_YD(x) (V_YEAR((int)(x).y) && (x).d >= 1 && (x).d <= 366)
+#define LV_d(d) (V_d(d) || ((d).typ == DT_YMD && L_YMD((d).ymd)) || ((d).typ == DT_YMCW && L_YMCW((d).ymcw)) || ((d).typ == DT_YWD && L_YWD((d).ywd)) || ((d).typ == DT_YD && L_YD((d).yd)))
+#define IMIN(a, b) ((a) < (b) ? (a) : (b))
+#define PRE_dt_dfixup(d) (LV_d(d))
 #define POST_dt_dfixup_valid(ret, d) (!V_d(d) || ((ret).u == (d).u && (ret).typ == (d).typ && (ret).param == (d).param && (ret).fix == (d).fix && (ret).neg == (d).neg))
+#define POST_dt_dfixup_crop(ret, d) \
+	((ret).typ == (d).typ && (ret).param == (d).param && \
+	 ((d).typ == DT_YMD ? ((ret).ymd.y == (d).ymd.y && (ret).ymd.m == (d).ymd.m && (int)(ret).ymd.d == IMIN((int)(d).ymd.d, S_MDAYS((int)(d).ymd.y, (int)(d).ymd.m))) : \
+	  (d).typ == DT_YMCW ? ((ret).ymcw.y == (d).ymcw.y && (ret).ymcw.m == (d).ymcw.m && (ret).ymcw.w == (d).ymcw.w && (int)(ret).ymcw.c == IMIN((int)(d).ymcw.c, S_mcnt((int)(d).ymcw.y, (int)(d).ymcw.m, (int)(d).ymcw.w))) : \
+	  (d).typ == DT_YWD ? ((ret).ywd.y == (d).ywd.y && (ret).ywd.w == (d).ywd.w && (ret).ywd.hang == (d).ywd.hang && (int)(ret).ywd.c == IMIN((int)(d).ywd.c, S_ISOWEEKS((int)(d).ywd.y))) : \
+	  (d).typ == DT_YD ? ((ret).yd.y == (d).yd.y && (int)(ret).yd.d == IMIN((int)(d).yd.d, S_YDAYS((int)(d).yd.y))) : (ret).u == (d).u))
 struct dt_d_s dt_dfixup(struct dt_d_s d)
-VERIF_CONTRACT(__CPROVER_requires(PRE_dt_dfixup(d)) __CPROVER_ensures(POST_dt_dfixup_valid(RV, d)) __CPROVER_assigns());
-#define POST_dt_dfixup(ret, d) POST_dt_dfixup_valid(ret, d)
+VERIF_CONTRACT(__CPROVER_requires(PRE_dt_dfixup(d)) __CPROVER_ensures(POST_dt_dfixup_valid(RV, d)) __CPROVER_ensures(POST_dt_dfixup_crop(RV, d)) __CPROVER_assigns());
+#define POST_dt_dfixup(ret, d) (POST_dt_dfixup_valid(ret, d) && POST_dt_dfixup_crop(ret, d))
 
 #define PRE_dt_conv_to_daisy(t) (V_d(t))
 #define POST_dt_conv_to_daisy(ret, t) ((int)(ret) == A_d(t))
@@ -83,12 +96,26 @@ CONTRACT(PRE_dt_dadd_d(d, n), POST_dt_dadd_d(RV, d, n));
 struct dt_d_s dt_dadd_w(struct dt_d_s d, int n)
 CONTRACT(PRE_dt_dadd_w(d, n), POST_dt_dadd_w(RV, d, n));
 /* dt_dadd with a day or week duration */
-#define PRE_dt_dadd_dw(d, dur) (((dur).durtyp == DT_DURD && PRE_dt_dadd_d(d, (dur).dv)) || ((dur).durtyp == DT_DURWK && PRE_dt_dadd_w(d, (dur).dv)))
-#define POST_dt_dadd_dw(ret, d, dur) (SAME_META(ret, d) && V_d(ret) && AN_d(ret) == AN_d(d) + ((dur).durtyp == DT_DURWK ? 7 : 1) * (dur).dv)
+/* C04: months / years on ymd values: (year, month) moves by exactly n months (12 n for years), the day field is kept (lazy ultimo) */
+#define MIDX(y, m) (12 * (int)(y) + (int)(m) - 1)
+#define PRE_dt_dadd_m(d, n) ((d).typ == DT_YMD && L_YMD((d).ymd) && (n) >= -30000 && (n) <= 30000 && MIDX((d).ymd.y, (d).ymd.m) + (n) >= MIDX(1601, 1) && MIDX((d).ymd.y, (d).ymd.m) + (n) <= MIDX(4095, 12))
+#define POST_dt_dadd_m(ret, d, n) (SAME_META(ret, d) && L_YMD((ret).ymd) && (ret).ymd.d == (d).ymd.d && MIDX((ret).ymd.y, (ret).ymd.m) == MIDX((d).ymd.y, (d).ymd.m) + (n))
+struct dt_d_s dt_dadd_m(struct dt_d_s d, int n)
+CONTRACT(PRE_dt_dadd_m(d, n), POST_dt_dadd_m(RV, d, n));
+#define PRE_dt_dadd_y(d, n) ((d).typ == DT_YMD && L_YMD((d).ymd) && (n) >= -2500 && (n) <= 2500 && V_YEAR((int)(d).ymd.y + (n)))
+#define POST_dt_dadd_y(ret, d, n) (SAME_META(ret, d) && L_YMD((ret).ymd) && (ret).ymd.d == (d).ymd.d && (ret).ymd.m == (d).ymd.m && (int)(ret).ymd.y == (int)(d).ymd.y + (n))
+struct dt_d_s dt_dadd_y(struct dt_d_s d, int n)
+CONTRACT(PRE_dt_dadd_y(d, n), POST_dt_dadd_y(RV, d, n));
+
+#define DADD_MONTHS(dur) ((dur).durtyp == DT_DURMO ? (dur).dv : 3 * (dur).dv)
+#define PRE_dt_dadd(d, dur) (((dur).durtyp == DT_DURD && PRE_dt_dadd_d(d, (dur).dv)) || ((dur).durtyp == DT_DURWK && PRE_dt_dadd_w(d, (dur).dv)) || \
+	(((dur).durtyp == DT_DURMO || (dur).durtyp == DT_DURQU) && (dur).dv >= -10000 && (dur).dv <= 10000 && PRE_dt_dadd_m(d, DADD_MONTHS(dur))) || \
+	((dur).durtyp == DT_DURYR && PRE_dt_dadd_y(d, (dur).dv)))
+#define POST_dt_dadd(ret, d, dur) \
+	(((dur).durtyp == DT_DURD || (dur).durtyp == DT_DURWK) ? (SAME_META(ret, d) && V_d(ret) && AN_d(ret) == AN_d(d) + ((dur).durtyp == DT_DURWK ? 7 : 1) * (dur).dv) : \
+	 (dur).durtyp == DT_DURYR ? POST_dt_dadd_y(ret, d, (dur).dv) : POST_dt_dadd_m(ret, d, DADD_MONTHS(dur)))
 struct dt_d_s dt_dadd(struct dt_d_s d, struct dt_ddur_s dur)
-CONTRACT(PRE_dt_dadd_dw(d, dur), POST_dt_dadd_dw(RV, d, dur));
-#define PRE_dt_dadd(d, dur) PRE_dt_dadd_dw(d, dur)
-#define POST_dt_dadd(ret, d, dur) POST_dt_dadd_dw(ret, d, dur)
+CONTRACT(PRE_dt_dadd(d, dur), POST_dt_dadd(RV, d, dur));
 
 
 /* date difference; DT_DURD: plain difference of day numbers (other duration types: see C05 groups) */
